@@ -14,6 +14,8 @@ import XzVerif.Gen.C13
 import XzVerif.Lemmas.IndexHist
 import XzVerif.Lemmas.IndexLocate
 import XzVerif.Lemmas.IndexCodec
+import XzVerif.Lemmas.IndexIterAll
+import XzVerif.Lemmas.IndexTreeBalance
 
 namespace XzVerif.C13
 open XzVerif.Index
@@ -81,13 +83,29 @@ theorem tree_append_inorder {α : Type} (t : CTree α) (x : α) :
     (t.append x).toList = t.toList ++ [x] ∧ (t.append x).count = t.count + 1 :=
   ⟨CTree.toList_append t x, CTree.count_append t x⟩
 
-/-- full-strength height statement: after n sequential appends the height is at most ⌊log₂ n⌋ + 1 -/
-def tree_append_height_statement : Prop := ∀ n : Nat, balancedUpTo n = true
+/-- **Balance of `index_tree_append` for every node count** (the count is a `uint32_t`; the model's `ctz32` is the
+    32-bit one, hence the bound). `CTree.Shaped t` describes the tree after `t.count` sequential appends exactly: with
+    `k = ⌊log₂ count⌋` the right spine has `k + 1` nodes, the left subtree of the spine node at bit position `p`
+    (`p = k-1 … 0` from the root down) is a perfect tree of height `p + bit_p(count)`, the last spine node has no
+    children. The empty tree has the shape; `index_tree_append` keeps it whatever the count (insert at the right end,
+    and — unless the count becomes a power of two — one left rotation `ctz(count) + 2` parents up, a binary carry that
+    merges two perfect subtrees of equal height); updating the last node keeps it; and the shape gives
+    height ≤ ⌊log₂ count⌋ + 1. (Parent links are not part of the functional model.) -/
+theorem tree_append_height {α : Type} (t : CTree α) (x : α) (f : α → α) (h : CTree.Shaped t) (hlt : t.count + 1 < 2 ^ 32) :
+    CTree.Shaped (CTree.empty : CTree α)
+    ∧ CTree.Shaped (t.append x)
+    ∧ CTree.Shaped ⟨t.root.modifyRightmost f, t.count⟩
+    ∧ t.root.height ≤ Nat.log2 t.count + 1
+    ∧ (t.append x).root.height ≤ Nat.log2 (t.count + 1) + 1 := by
+  have h' := CTree.shaped_append h x hlt
+  refine ⟨CTree.shaped_empty, h', CTree.shaped_modifyRightmost h f, CTree.shaped_height h, ?_⟩
+  have := CTree.shaped_height h'
+  rwa [CTree.count_append] at this
 
-/-- partial: checked by kernel evaluation for every node count up to 2100 (covers 2^k ± 1 for k ≤ 11); after each append
-    height ≤ ⌊log₂ count⌋ + 1 and size = count. Missing: the induction over the count-driven rotation for all n.
-    (Parent links are not part of the functional model.) -/
-theorem tree_append_height_partial : balancedUpTo 2100 = true := by decide +kernel
+/-- the evaluated balance test (after each of `n` appends to the empty tree: node count right and
+    height ≤ ⌊log₂ count⌋ + 1) succeeds for every `n < 2^32` -/
+theorem tree_append_height_all (n : Nat) (h : n < 2 ^ 32) : balancedUpTo n = true :=
+  balancedGo_of_shaped n CTree.empty CTree.shaped_empty rfl (by simpa [CTree.empty] using h)
 
 /-! ### limits_atomic -/
 
@@ -186,17 +204,43 @@ theorem index_refines_spec_decode (memlimit : Nat) (bs : List UInt8) :
        ∧ ∀ i, (Impl.decode memlimit bs).index = some i → Impl.Inv i) :=
   Impl.decode_refines memlimit bs
 
-/-- full-strength iterator/locate part of the refinement: the concrete iterator (tree positions, ITER_METHOD_*
-    indirection, binary search) shows exactly what the specification iterator shows -/
-def index_refines_spec_iter_statement : Prop :=
-  ∀ (h : Hist) (i : Impl.Index), h.impl = some i →
+/-- Iterator / locate part of the refinement, for every history: a full iteration of the CONCRETE iterator (tree
+    positions, groups, Records as cumulative sums, the ITER_METHOD_* indirection) in any mode shows exactly the
+    specification's listing, and the concrete `lzma_index_iter_locate` (descent in the Stream tree, descent in the group
+    tree, binary search over the cumulative sums) shows exactly what the specification's `locate` shows. -/
+theorem index_refines_spec_iter (h : Hist) (i : Impl.Index) (hi : h.impl = some i) :
     (∀ mode, Impl.iterAll i mode = Spec.iterAll h.spec mode)
-    ∧ (∀ t, (Impl.iterLocate i t).map (·.2) = Spec.locate h.spec t)
+    ∧ (∀ t, (Impl.iterLocate i t).map (·.2) = Spec.locate h.spec t) := by
+  obtain ⟨ha, hinv⟩ := Hist.refines h i hi
+  exact ⟨fun mode => by rw [← ha]; exact Impl.iterAll_refines hinv mode,
+         fun t => by rw [← ha]; exact Impl.iterLocate_refines hinv t⟩
 
-/-- partial: on concrete histories (evaluated by the kernel); the general proof needs group bases / number bases in
-    `Impl.Inv` and an induction over `nextLoop`. The model driver additionally checks this equality at run time on
-    every `iter`/`locate`/`inext` op of the correspondence (answer gets " SPECDIFF" otherwise). -/
-theorem index_refines_spec_iter_partial :
+/-- one `lzma_index_iter_next` at a time, any mode per call (modes may be mixed), from any iterator state reachable by
+    `rewind`/`next`/`locate` (`IterOk`, `IterCanon`): the concrete call fails iff the specification's `next` fails from
+    the iterator's position, and otherwise lands on the position the specification lands on and publishes exactly the
+    specification's fields (numbers, offsets = prefix sums, sizes, flags, padding) for it; the new iterator is again of
+    that kind. Fresh iterators and the iterators set by `lzma_index_iter_locate` are of that kind. -/
+theorem iter_next_refines_spec (h : Hist) (i : Impl.Index) (hi : h.impl = some i) :
+    (Impl.IterOk i Impl.Iter.rewind ∧ Impl.IterCanon i Impl.Iter.rewind ∧ Impl.specPos i Impl.Iter.rewind = none)
+    ∧ (∀ t it info, Impl.iterLocate i t = some (it, info) → Impl.IterOk i it ∧ Impl.IterCanon i it)
+    ∧ ∀ it, Impl.IterOk i it → ∀ mode,
+        (Impl.iterNext i it mode = none →
+          Spec.iterNextPos h.spec mode (Spec.iterFuel h.spec) (Impl.specPos i it) = none)
+        ∧ ∀ it' info, Impl.iterNext i it mode = some (it', info) →
+            ∃ p, Spec.iterNextPos h.spec mode (Spec.iterFuel h.spec) (Impl.specPos i it) = some p
+              ∧ Impl.specPos i it' = some p ∧ Spec.infoAt h.spec p.1 p.2 = some info
+              ∧ Impl.IterOk i it' ∧ Impl.IterCanon i it' := by
+  obtain ⟨ha, hinv⟩ := Hist.refines h i hi
+  refine ⟨⟨Impl.iterOk_rewind i, Impl.iterCanon_rewind i, rfl⟩, ?_, ?_⟩
+  · intro t it info hloc
+    exact Impl.iterLocate_ok hinv hloc
+  · intro it hok mode
+    rw [← ha]
+    exact Impl.iterNext_sim hinv hok mode
+
+/-- kernel-evaluated instance of the two theorems above on a history with every kind of op (kept as a sanity check that
+    the hypotheses are satisfiable and the statement computes) -/
+example :
     let h : Hist := .cat (.padding (.flags (.append (.append (.append .init 39 100) 57 0) 81 50) ⟨0, VLI_UNKNOWN, 1⟩) 8)
                          (.dup (.append (.cat .init (.append .init 9 0)) 5 7))
     ∃ i, h.impl = some i ∧ (∀ mode ∈ [0, 1, 2, 3, 4], Impl.iterAll i mode = Spec.iterAll h.spec mode)
@@ -216,33 +260,110 @@ theorem locate_unique (i : Index) (t : Nat) :
   have hc := Spec.locatePos_contains hp
   exact ⟨p, hp, hc, fun si bi h' => Spec.contains_unique h' hc⟩
 
-/-! ### iter_visits_once (statement + partial) and index_codec_roundtrip -/
+/-- `lzma_index_iter_locate` of the CONCRETE model, for every history and every target below the total uncompressed
+    size: it succeeds, and what it shows is the specification's Block `p` that contains the target — the unique Block
+    of the file that contains it (hence a non-empty one). For targets at or beyond the end it fails. -/
+theorem locate_unique_concrete (h : Hist) (i : Impl.Index) (hi : h.impl = some i) (t : Nat) :
+    (t < Spec.uncompressedSize h.spec →
+      ∃ (it : Impl.Iter) (info : Spec.IterInfo) (p : Nat × Nat),
+        Impl.iterLocate i t = some (it, info) ∧ Spec.infoAt h.spec p.1 (some p.2) = some info
+        ∧ Spec.Contains h.spec p.1 p.2 t ∧ ∀ si bi, Spec.Contains h.spec si bi t → si = p.1 ∧ bi = p.2)
+    ∧ (Spec.uncompressedSize h.spec ≤ t → Impl.iterLocate i t = none) := by
+  obtain ⟨ha, hinv⟩ := Hist.refines h i hi
+  have href := Impl.iterLocate_refines hinv t
+  rw [ha] at href
+  constructor
+  · intro hlt
+    obtain ⟨p, hp, hc, huniq⟩ := (locate_unique h.spec t).1 hlt
+    unfold Spec.locate at href
+    rw [hp] at href
+    simp only [Option.bind_some] at href
+    cases hl : Impl.iterLocate i t with
+    | none =>
+      rw [hl] at href
+      -- the specification shows something: Stream and Block exist
+      obtain ⟨s, b, hs, hb, _, _⟩ := hc
+      unfold Spec.infoAt at href
+      rw [hs] at href
+      simp at href
+    | some x =>
+      obtain ⟨it, info⟩ := x
+      rw [hl] at href
+      simp only [Option.map_some] at href
+      exact ⟨it, info, p, rfl, href.symm, hc, huniq⟩
+  · intro hge
+    unfold Impl.iterLocate
+    rw [if_pos (by rw [hinv.unc, ha]; exact hge)]
 
-/-- full strength: in every mode (a) calling `next` on the specification iterator until it fails shows exactly the
-    listing `Spec.iterAll` (every Stream / Block / non-empty Block once, in file order, offsets = prefix sums), and
-    (b) the concrete iterator shows the same, also when the index is the destination of a `cat` between two calls -/
-def iter_visits_once_statement : Prop :=
-  ∀ (h : Hist) (i : Impl.Index), h.impl = some i → ∀ mode : Nat,
+/-! ### iter_visits_once and iter_survives -/
+
+/-- In every mode (a) calling `next` on the specification's persistent iterator until it fails shows exactly the listing
+    `Spec.iterAll` and (b) a full iteration of the concrete iterator shows the same listing. -/
+theorem iter_visits_once (h : Hist) (i : Impl.Index) (hi : h.impl = some i) (mode : Nat) :
     ((Spec.iterSeq h.spec mode (Spec.iterFuel h.spec) none).filterMap fun p => Spec.infoAt h.spec p.1 p.2) = Spec.iterAll h.spec mode
-    ∧ Impl.iterAll i mode = Spec.iterAll h.spec mode
+    ∧ Impl.iterAll i mode = Spec.iterAll h.spec mode :=
+  ⟨Spec.iterSeq_infos h.spec mode, (index_refines_spec_iter h i hi).1 mode⟩
 
-/-- partial (kernel evaluation on a concrete multi-Stream index with empty Streams and empty Blocks, all mode values):
-    the persistent iterator returns the listing; BLOCK mode visits every Block once in order with consecutive numbers;
-    NONEMPTY_BLOCK skips the empty ones; STREAM visits every Stream. Missing: the general induction (the model driver
-    checks both equalities at run time on every iter/inext op of the correspondence). -/
-theorem iter_visits_once_partial :
-    let i : Index := [⟨none, 0, [⟨5, 0⟩, ⟨6, 3⟩]⟩, ⟨none, 4, []⟩, ⟨some ⟨0, 8, 4⟩, 0, [⟨7, 0⟩, ⟨9, 9⟩, ⟨5, 0⟩]⟩, ⟨none, 0, []⟩]
-    (∀ mode ∈ [0, 1, 2, 3, 4, 5],
-      ((Spec.iterSeq i mode (Spec.iterFuel i) none).filterMap fun p => Spec.infoAt i p.1 p.2) = Spec.iterAll i mode)
-    ∧ (Spec.iterAll i 2).filterMap (fun x => x.block.map fun b => (⟨b.unpaddedSize, b.uncompressedSize⟩ : Block)) = Spec.allBlocks i
-    ∧ (Spec.iterAll i 2).filterMap (fun x => x.block.map (·.numberInFile)) = [1, 2, 3, 4, 5]
-    ∧ (Spec.iterAll i 3).filterMap (fun x => x.block.map (·.uncompressedFileOffset)) = [0, 3]
-    ∧ (Spec.iterAll i 1).map (·.stream.number) = [1, 2, 3, 4]
-    ∧ (Spec.iterAll i 0).length = 7 ∧ Spec.iterAll i 4 = [] := by decide +kernel
+/-- What the listing is ("every element exactly once, in file order"): for ANY (0), STREAM (1) and BLOCK (2) the
+    positions of `Spec.iterAll` are strictly increasing in file order (so none occurs twice) and are exactly:
+    STREAM — every Stream; BLOCK — every (Stream, Block) pair; ANY — these plus every Stream without Blocks.
+    NONEMPTY_BLOCK (3) is the BLOCK listing without the Blocks of Uncompressed Size 0. The fields shown for a position
+    are `Spec.infoAt` (numbers and offsets = prefix sums over the records before it). -/
+theorem iter_listing_exact (i : Index) (mode : Nat) :
+    Spec.iterAll i mode = (Spec.listingM i mode).filterMap (fun p => Spec.infoAt i p.1 p.2)
+    ∧ (Spec.listingM i mode).Pairwise Spec.plt
+    ∧ (mode ≤ 2 → ∀ y, y ∈ Spec.listingM i mode ↔ Spec.Listed i mode y)
+    ∧ Spec.listingM i 3 = (Spec.listingM i 2).filter (fun p => !Spec.blockEmptyAt i p)
+    ∧ (3 < mode → Spec.listingM i mode = []) := by
+  refine ⟨Spec.iterAll_eq_listing i mode, Spec.listingM_sorted i mode, ?_, rfl, ?_⟩
+  · intro hm y
+    have : Spec.listingM i mode = Spec.listing i mode := by unfold Spec.listingM; rw [if_pos hm]
+    rw [this]; exact Spec.mem_listing hm y
+  · intro hm
+    unfold Spec.listingM
+    rw [if_neg (by omega), if_neg (by omega)]
 
-/-- partial: an iterator survives a `cat` performed between two `next` calls (the last group of the destination is
-    reallocated by the C code; the ITER_METHOD_* indirection of the model's iterator is what this exercises) -/
-theorem iter_survives_cat_partial :
+/-- **An iterator survives `lzma_index_append` and `lzma_index_cat` between two `next` calls.** `i` is a reachable index,
+    `it` an iterator on it (any state reachable by rewind/next/locate), `i'` the index after an append (successful or
+    not) or after `i` was the destination of a cat (successful or not; the C code reallocates the last group of `i`
+    there, which is what the ITER_METHOD_* indirection is for). Then (1) `it` is a valid iterator of `i'`; (2) the next
+    call on `i'` does what the specification's `next` does on the new list of records from the position `it` had; and
+    (3) the rest of the iteration on `i'` shows exactly the elements of the new listing after that position, each
+    once, in order.
+    Exception made explicit (finding F6b; the specification mirrors the code): an iterator parked on a Stream without
+    Blocks has position `(si, none)`, which counts as "Block 0 of Stream `si` already returned"; if an append gives
+    that Stream its first Block, that Block is NOT among "the elements after the position" (see the example below). -/
+theorem iter_survives_append_cat (h : Hist) (i : Impl.Index) (hi : h.impl = some i)
+    (it : Impl.Iter) (hok : Impl.IterOk i it) (hc : Impl.IterCanon i it) (i' : Impl.Index)
+    (hstep : (∃ u c, i' = (Impl.append i u c).2)
+           ∨ (∃ (hs : Hist) (src : Impl.Index), hs.impl = some src ∧ i' = (Impl.cat i src).2)) (mode : Nat) :
+    (Impl.IterOk i' it ∧ Impl.IterCanon i' it)
+    ∧ (Impl.iterNext i' it mode = none →
+        Spec.iterNextPos (Impl.abs i') mode (Spec.iterFuel (Impl.abs i')) (Impl.specPos i it) = none)
+    ∧ (∀ it' info, Impl.iterNext i' it mode = some (it', info) →
+        ∃ p, Spec.iterNextPos (Impl.abs i') mode (Spec.iterFuel (Impl.abs i')) (Impl.specPos i it) = some p
+          ∧ Impl.specPos i' it' = some p ∧ Spec.infoAt (Impl.abs i') p.1 p.2 = some info
+          ∧ Impl.IterOk i' it' ∧ Impl.IterCanon i' it')
+    ∧ Impl.iterAllGo i' mode (Impl.iterFuel i') it
+        = ((Spec.listingM (Impl.abs i') mode).filter fun y => decide (Spec.above (Impl.specPos i it) y)).filterMap
+            fun p => Spec.infoAt (Impl.abs i') p.1 p.2 := by
+  obtain ⟨_, hinv⟩ := Hist.refines h i hi
+  have hboth : Impl.Inv i' ∧ Impl.Grows i i' := by
+    rcases hstep with ⟨u, c, rfl⟩ | ⟨hs, src, hsrc, rfl⟩
+    · refine ⟨?_, Impl.append_grows hinv u c⟩
+      rcases Impl.append_refines hinv u c with hm | ⟨_, _, h3⟩
+      · rw [hm]; exact hinv
+      · exact h3
+    · obtain ⟨_, hsinv⟩ := Hist.refines hs src hsrc
+      exact ⟨(Impl.cat_refines hinv hsinv).2.2.1, Impl.cat_grows hinv⟩
+  obtain ⟨hinv', hg⟩ := hboth
+  obtain ⟨a1, a2, _⟩ := Impl.survive_pos hinv' hg hok hc
+  obtain ⟨b1, b2⟩ := Impl.iterNext_survives hinv' hg hok hc mode
+  exact ⟨⟨a1, a2⟩, b1, b2, Impl.iterRest_survives hinv' hg hok hc mode⟩
+
+/-- instance: BLOCK iteration over two Blocks, the index then becomes the destination of a `cat` (its last group is
+    reallocated in the C code), iteration continues into the moved Stream and ends -/
+example :
     let d := (Impl.append (Impl.append Impl.init 10 5).2 12 6).2
     let s := (Impl.append Impl.init 9 7).2
     let c := (Impl.cat d s).2
@@ -251,6 +372,26 @@ theorem iter_survives_cat_partial :
       ∧ Impl.iterNext c it2 2 = some (it3, x3) ∧ Impl.iterNext c it3 2 = none
       ∧ [x1, x2, x3] = Spec.iterAll (Impl.abs c) 2 := by
   refine ⟨_, _, _, _, _, _, rfl, rfl, rfl, ?_, ?_⟩ <;> decide +kernel
+
+/-- the F6b corner, as the code behaves: an ANY-mode iterator parked on the (empty) only Stream; an append gives the
+    Stream its first Block; the next call does not return that Block -/
+example :
+    let d := Impl.init
+    let d' := (Impl.append d 10 5).2
+    ∃ it1 x1, Impl.iterNext d Impl.Iter.rewind 0 = some (it1, x1) ∧ x1.block = none
+      ∧ Impl.iterNext d' it1 0 = none ∧ (Spec.iterAll (Impl.abs d') 0).length = 1 := by
+  refine ⟨_, _, rfl, ?_, ?_, ?_⟩ <;> decide +kernel
+
+/-- concrete multi-Stream index with empty Streams and empty Blocks, all mode values (kernel evaluation) -/
+example :
+    let i : Index := [⟨none, 0, [⟨5, 0⟩, ⟨6, 3⟩]⟩, ⟨none, 4, []⟩, ⟨some ⟨0, 8, 4⟩, 0, [⟨7, 0⟩, ⟨9, 9⟩, ⟨5, 0⟩]⟩, ⟨none, 0, []⟩]
+    (∀ mode ∈ [0, 1, 2, 3, 4, 5],
+      ((Spec.iterSeq i mode (Spec.iterFuel i) none).filterMap fun p => Spec.infoAt i p.1 p.2) = Spec.iterAll i mode)
+    ∧ (Spec.iterAll i 2).filterMap (fun x => x.block.map fun b => (⟨b.unpaddedSize, b.uncompressedSize⟩ : Block)) = Spec.allBlocks i
+    ∧ (Spec.iterAll i 2).filterMap (fun x => x.block.map (·.numberInFile)) = [1, 2, 3, 4, 5]
+    ∧ (Spec.iterAll i 3).filterMap (fun x => x.block.map (·.uncompressedFileOffset)) = [0, 3]
+    ∧ (Spec.iterAll i 1).map (·.stream.number) = [1, 2, 3, 4]
+    ∧ (Spec.iterAll i 0).length = 7 ∧ Spec.iterAll i 4 = [] := by decide +kernel
 
 /-- Decoding the encoded Index field of a valid single-Stream index gives that index back (Stream Flags and Stream
     Padding are not part of the Index field), for every list of Blocks within the format limits: the decoder answers
